@@ -96,6 +96,23 @@ func (r *runner) replayPath(g *graph, path []int32, scratch string) (out outcome
 					return
 				}
 			}
+			if l.Has("precache") {
+				if pc := l.F("precache").Strs(); len(pc) > 0 {
+					// keys committed but not flushed before the behaviour starts
+					err := w.db.Update(func(tx database.Tx) error {
+						for _, k := range pc {
+							if err := tx.Metadata().Put(w.cc.key[k], w.cc.val[l.F("preval").Str()]); err != nil {
+								return err
+							}
+						}
+						return nil
+					})
+					if err != nil {
+						out.infra = fmt.Errorf("pre-populating the cache: %v", err)
+						return
+					}
+				}
+			}
 		case "Begin":
 			h := l.F("h").Str()
 			tx, err := w.db.Begin(h == "w")
